@@ -263,7 +263,10 @@ class Val(Ty):
     symbolic values; stored flattened as a datatype.  `variants`: list of (pyclass) sharing the
     same fields, distinguished by a tag (e.g. Instant / _InfiniteInstant)."""
 
+    instances = []
+
     def __init__(self, name, variants, fields):
+        Val.instances.append(self)
         self.name = name
         self.variants = variants          # list of python classes (resolved lazily ok)
         self.fields = fields              # list of (fname, Ty)
@@ -307,3 +310,40 @@ class Val(Ty):
         k = min(max(k, 0), len(self.variants) - 1)
         return {"__val__": self.variants[k].__name__,
                 **{f: t.concretize(model, getattr(self.dt, f)(v)) for f, t in self.fields}}
+
+
+# ---------------------------------------------------------------------------- opaque callables
+class Fn(Ty):
+    """A callable stored in a field (callback, clock reader): every call returns an arbitrary
+    value of type `returns` (so a proof holds for every behaviour of the callable) and has no
+    effect on modelled state (assumption listed per use)."""
+
+    def __init__(self, returns=None, name="fn"):
+        self.returns = returns
+        self.name = f"Fn(->{returns.name if returns else 'None'})"
+        self._n = name
+
+    def sort(self):
+        return z3.IntSort()
+
+    def wrap(self, term, loc=None):
+        ret = self.returns
+        nm = self._n
+
+        def call(*a, **k):
+            if ret is None:
+                return None
+            return ret.fresh(f"{nm}_ret")
+        call._pyvc_fn_term = term
+        return call
+
+    def unwrap(self, v):
+        t = getattr(v, "_pyvc_fn_term", None)
+        if t is not None:
+            return t
+        if callable(v):
+            return _c().fresh("fnval", z3.IntSort())
+        raise OutOfReach(f"{type(v).__name__} stored where a callable is declared")
+
+    def concretize(self, model, term):
+        return "<callable>"
